@@ -54,17 +54,60 @@ func runC42(c *core.Ctx) {
 		// every dominating condition known to be false contributes its disjuncts (`if a || b` lowers either to
 		// one phi condition or to two nested conditions)
 		var testedCalls []ssa.Value
+		testedAt := map[ssa.Value]ssa.Instruction{} // where in increaseLoad a test made in a helper takes place
 		for _, cd := range core.CondsAt(r.Block()) {
 			if !cd.Taken {
 				ds := core.Disjuncts(cd.V)
 				calls := 0
+				var found []ssa.Value
 				for _, d := range ds {
-					if call, ok := d.(*ssa.Call); ok && core.CallDesc(&call.Call).Name == "isMaximumReached" {
+					call, ok := d.(*ssa.Call)
+					if !ok {
+						continue
+					}
+					if core.CallDesc(&call.Call).Name == "isMaximumReached" {
 						calls++
+						found = append(found, d)
+						continue
+					}
+					// a boolean helper of the preventer whose every answer is a disjunction of limit tests
+					h := call.Call.StaticCallee()
+					if h == nil || h.Blocks == nil || h.Pkg != fn.Pkg {
+						continue
+					}
+					all, any := true, false
+					var inner []ssa.Value
+					for _, hr := range core.Returns(h) {
+						if len(hr.Results) != 1 {
+							all = false
+							continue
+						}
+						rv := core.RetOperand(hr, 0)
+						if b, isC := core.ConstBool(rv); isC {
+							all = all && b // a constant 'reached' refuses; a constant 'not reached' accepts untested
+							continue
+						}
+						for _, hd := range core.Disjuncts(rv) {
+							hc, isCall := hd.(*ssa.Call)
+							if !isCall || core.CallDesc(&hc.Call).Name != "isMaximumReached" {
+								all = false
+								continue
+							}
+							any = true
+							inner = append(inner, hd)
+						}
+					}
+					if all && any {
+						calls++
+						c.Analysed(fname(h))
+						for _, x := range inner {
+							testedAt[x] = call
+						}
+						found = append(found, inner...)
 					}
 				}
 				if calls == len(ds) && calls > 0 {
-					testedCalls = append(testedCalls, ds...)
+					testedCalls = append(testedCalls, found...)
 				}
 			}
 		}
@@ -115,7 +158,11 @@ func runC42(c *core.Ctx) {
 				}
 				dom := true
 				for _, t := range tests {
-					if !core.DominatesInstr(st, t) {
+					var at ssa.Instruction = t
+					if a, via := testedAt[t]; via {
+						at = a
+					}
+					if !core.DominatesInstr(st, at) {
 						dom = false
 					}
 				}
@@ -158,7 +205,7 @@ func runC42(c *core.Ctx) {
 			}
 			n++
 			base, self := false, false
-			for v := range core.BackwardReachPure(st.Val) {
+			for v := range reachWithHelpers(st.Val, ac.Pkg) {
 				k := core.ExprKey(v)
 				if k == "recv.baseMaxNumMessagesPerPeer" {
 					base = true
